@@ -79,6 +79,20 @@ pub struct Block {
     _transactions: Vec<Transaction>,
 }
 
+/// Read-only view for out-of-tree verification (feature `verif-hooks`).
+#[cfg(feature = "verif-hooks")]
+impl Block {
+    /// Returns the block's hash, parent slot, parent hash and transactions.
+    pub fn verif_parts(&self) -> (&BlockHash, Slot, &BlockHash, &[Transaction]) {
+        (
+            &self.hash,
+            self.parent,
+            &self.parent_hash,
+            &self._transactions,
+        )
+    }
+}
+
 /// Dummy transaction containing payload bytes.
 ///
 /// A transaction cannot hold more than [`MAX_TRANSACTION_SIZE`] payload bytes.
